@@ -314,3 +314,43 @@ package domain
 //@   loop 0 invariant 0 <= startDomain && startDomain <= i && endDomain < len(db.idx.mu.pointers)
 //@   loop 0 modifies nothing
 //@   loop 1 modifies nothing
+
+//@ # ---------------------------------------------------------------- garbage collection of one file (C02/C04)
+//@ # Thin contract. GC copies the live byte ranges of file `key` to <name>_gc in index order, shifts
+//@ # the offsets of that file's pointers in memory, and renames the copy over the file. The index is
+//@ # persisted later, once, by GarbageCollect. The assertion at the rename that makes the compacted
+//@ # file visible says what a crash right after it needs: no pointer of this file has an in-memory
+//@ # offset different from the one it had when GC started (which is what the disk index still holds).
+//@ # It FAILS whenever compaction moves anything - which is its purpose (known finding,
+//@ # /verif/findings/c02_gc_rename_window_test.go).
+//@ ignorepkg github.com/synnaxlabs/x/io/fs
+//@ ignorepkg os
+//@ ignore func (fc *fileController) prepareForGC() bool
+//@ ignore func (fc *fileController) restoreUnopened()
+//@ ignore func (fc *fileController) rejuvenate() error
+//@ ignore func fileKeyToName() string
+//@ # the delta recorded for a domain that contains the pointer's range, if there is one
+//@ func resolvePointerOffset(ptrRange telem.TimeRange, offsetDeltaMap map[telem.TimeRange]uint32) (delta uint32, ok bool)
+//@   ensures ok ==> (exists d telem.TimeRange :: __in(offsetDeltaMap, d) && d.ContainsRange(ptrRange) && delta == offsetDeltaMap[d])
+//@   ensures !ok ==> delta == 0 && (forall d telem.TimeRange :: __in(offsetDeltaMap, d) ==> !d.ContainsRange(ptrRange))
+//@   modifies nothing
+//@   loop 0 invariant forall d telem.TimeRange :: __seen(d) ==> !d.ContainsRange(ptrRange)
+//@ func (db *DB) garbageCollectFile(key uint16, size int64) (err error)
+//@   overflow off
+//@   pragma wraps uint32 offset arithmetic wraps by design (delta = old - new, applied as old - delta)
+//@   requires db.idx != nil && db.fc != nil
+//@   requires forall k uint16 :: __in(db.fc.readers.files, k) ==> db.fc.readers.files[k] != nil
+//@   ensures len(db.idx.mu.pointers) == old(len(db.idx.mu.pointers))
+//@   ensures forall i int :: 0 <= i && i < len(db.idx.mu.pointers) ==> db.idx.mu.pointers[i].TimeRange == old(db.idx.mu.pointers[i].TimeRange) && db.idx.mu.pointers[i].fileKey == old(db.idx.mu.pointers[i].fileKey) && db.idx.mu.pointers[i].size == old(db.idx.mu.pointers[i].size)
+//@   ensures forall i int :: 0 <= i && i < len(db.idx.mu.pointers) && db.idx.mu.pointers[i].fileKey != key ==> db.idx.mu.pointers[i].offset == old(db.idx.mu.pointers[i].offset)
+//@   modifies db.idx
+//@   # every live range that does not stay where it was gets its displacement recorded (uint32
+//@   # arithmetic wraps: a range may also move towards the end when file order differs from time order)
+//@   assert_after "newOffset += uint32(n)" (newOffset - uint32(n) != ptr.offset) ==> (__in(offsetDeltaMap, ptr.TimeRange) && offsetDeltaMap[ptr.TimeRange] == ptr.offset - (newOffset - uint32(n)))
+//@   assert_before "return db.cfg.FS.Rename(copyName, name)" forall i int :: 0 <= i && i < len(db.idx.mu.pointers) ==> db.idx.mu.pointers[i].offset == old(db.idx.mu.pointers[i].offset)
+//@   loop 0 modifies nothing
+//@   loop 1 modifies offsetDeltaMap
+//@   loop 2 invariant len(db.idx.mu.pointers) == old(len(db.idx.mu.pointers))
+//@   loop 2 invariant forall j int :: 0 <= j && j < len(db.idx.mu.pointers) ==> db.idx.mu.pointers[j].TimeRange == old(db.idx.mu.pointers[j].TimeRange) && db.idx.mu.pointers[j].fileKey == old(db.idx.mu.pointers[j].fileKey) && db.idx.mu.pointers[j].size == old(db.idx.mu.pointers[j].size)
+//@   loop 2 invariant forall j int :: 0 <= j && j < len(db.idx.mu.pointers) && db.idx.mu.pointers[j].fileKey != key ==> db.idx.mu.pointers[j].offset == old(db.idx.mu.pointers[j].offset)
+//@   loop 2 modifies db.idx
